@@ -280,6 +280,23 @@ theorem C14_expr_sound (s : Screen) (w : WF s) (e : ViewExpr) (v : View) (h : ev
   obtain ⟨h1, h2⟩ := eval_sound s w e v h
   exact ⟨h1, h2, by rw [h2]⟩
 
+/-- **Generic in the attribute.** For ANY per-experiment attribute of the parent — any list `xs` with one entry per row,
+    of any type (names, doses, ids, observations, mask, plate names, single-treatment-effect rows, or an attribute added
+    later) — and any view `v` reached by any finite composition `e` of view operations: reading the attribute through the view
+    (`xs[selection_vector]`) gives exactly the parent's entries at the rows the expression denotes, in parent order, one per
+    selected row. (`C14_attr` is the same statement for a bare selection vector; `viewRows` instantiates it for the nine
+    attributes the driver prints.) -/
+theorem C14_attr_generic {α : Type} (s : Screen) (w : WF s) (e : ViewExpr) (v : View) (h : eval s e = .ok v)
+    (xs : List α) (hx : xs.length = s.size) :
+    maskFilter xs v.sel = maskFilter xs (denote s e) ∧
+    (maskFilter xs v.sel).length = v.size ∧
+    (maskFilter xs v.sel).map some = (selIdx v.sel).map (fun i => xs[i]?) ∧
+    (selIdx v.sel).Pairwise (· < ·) ∧ (∀ i, i ∈ selIdx v.sel ↔ v.sel[i]? = some true) := by
+  obtain ⟨h1, h2⟩ := eval_sound s w e v h
+  have hl : xs.length = v.sel.length := by rw [hx, h1]
+  obtain ⟨a1, a2, a3, a4⟩ := C14_attr xs v.sel hl
+  exact ⟨by rw [h2], a1, a2, a3, a4⟩
+
 /-- the denotation is built from the set operations: complement, union, nested selection -/
 theorem C14_denote_algebra (s : Screen) :
     (∀ e, denote s (.inv e) = (denote s e).map (!·)) ∧
